@@ -336,6 +336,8 @@ def simplify(stmts, nonnull):
                 continue
             st.body = simplify(st.body, nonnull)
             st.orelse = simplify(st.orelse, nonnull)
+        elif isinstance(st, (ast.For, ast.While, ast.With, ast.AsyncWith, ast.AsyncFor)):
+            st.body = simplify(st.body, nonnull)
         out.append(st)
     # a, b = x, y  ->  a = x; b = y   (no target is read by any of the values)
     split = []
